@@ -5,6 +5,10 @@ HOME = os.path.dirname(os.path.dirname(os.path.abspath(__file__)))
 sys.path.insert(0, HOME)
 
 CHECKS = {
+ "C20": dict(engine="E6 twin-process differential", technique="offline checker over recorded event logs of twin processes (multi-process vs single-process mediator with imposed per-handler random streams), seeded delay injection inside the forked workers for schedule diversity, /proc-based process-leak and zero-CPU bounded-progress monitors",
+    level="exploration", ref="DESIGN.md §3 C20",
+    text="Generated soft/hard sphere systems (with and without cells), molecules and hard-disk dipoles are run under the real MultiProcessMediator with 2..16 cores and seeded delays (0..15 ms, optionally delaying every other handler) injected in the workers; every run's commit/sample log must equal bit for bit the single-process run in which each handler owns the same private random stream; workers must be gone after post_run(); a run in which no process consumes CPU for 10 s is a deadlock. Evidence counts distinct arrival orders, precomputed and discarded out-states.",
+    note="Schedules are sampled, not enumerated. The per-handler streams are installed by the harness (CPython re-seeds random in forked children). Liveness is restated as bounded progress."),
  "C19": dict(engine="E6 twin-process differential", technique="offline checker over recorded event logs of twin processes: every dump point of every scenario is resumed with the repository's own resume.main() in a fresh process and its commit/sample log compared bit for bit (float.hex) with the uninterrupted run; class-level recording wrappers only, so dumps contain nothing of the harness",
     level="fault_enumeration", ref="DESIGN.md §3 C19",
     text="Each dumping event of a run is a crash point and ALL of them (up to 8 per scenario in the quick tier, 40 in the thorough tier) are enumerated: shipped configurations with heap and list scheduler, C-backed potentials, cell systems, liftings, mode switching, exact ties between sampling and dumping times, and generated many-particle cell systems; plus the run with dumps vs the same run without the dumping tagger, plus one cycle from a site-packages layout.",
